@@ -87,7 +87,12 @@ func Fill(r *rand.Rand, v reflect.Value, p *Profile, path string, isOptional boo
 		}
 		k := r.Intn(5)
 		var n int
+		ek := v.Type().Elem().Kind()
 		switch {
+		case p.LongLists && !p.longUsed && ek != reflect.Struct && ek != reflect.Slice && ek != reflect.Ptr && ek != reflect.Map && r.Intn(3) > 0:
+			// one scalar list per row only: nesting long lists multiplies out
+			n = []int{513, 600, 1100, 2100}[r.Intn(4)]
+			p.longUsed = true
 		case k == 0:
 			v.Set(reflect.Zero(v.Type())) // nil
 			return
@@ -95,11 +100,6 @@ func Fill(r *rand.Rand, v reflect.Value, p *Profile, path string, isOptional boo
 			n = 0 // empty, non-nil
 		default:
 			n = 1 + r.Intn(p.MaxLen)
-			if ek := v.Type().Elem().Kind(); p.LongLists && !p.longUsed && ek != reflect.Struct && ek != reflect.Slice && ek != reflect.Ptr && ek != reflect.Map && r.Intn(2) == 0 {
-				// one scalar list per row only: nesting long lists multiplies out
-				n = []int{513, 600, 1100, 2100}[r.Intn(4)]
-				p.longUsed = true
-			}
 		}
 		s := reflect.MakeSlice(v.Type(), n, n)
 		for i := 0; i < n; i++ {
